@@ -176,3 +176,34 @@ M2('c13-both-dash-boundary-without-dashes', 'C13', 'R4', [
 
 M('c13-parse-header-fast-path-with-quotes', 'C13', 'R8', 'falcon/util/mediatypes.py',
   """    if '"' not in line and '\\\\' not in line:""", """    if '\\\\' not in line:""", also=('C11',))
+
+# ------------------------------------------- R10 name / filename are exactly the parsed Content-Disposition parameters
+_NAME = "            self._name = params.get('name')\n"
+_FILENAME = "                self._filename = params.get('filename')\n"
+M2('c13-names-whatwg-unescaped', 'C13', 'R10', [          # seeded s5-c13-3
+    {'file': SYNC, 'old': "_CRLF = b'\\r\\n'\n", 'new': "_CRLF = b'\\r\\n'\n\n\ndef _unescape_whatwg(value):\n    if value and '%' in value:\n"
+     "        for escaped, char in (('%22', '\"'), ('%0D', '\\r'), ('%0A', '\\n')):\n            value = value.replace(escaped, char)\n    return value\n"},
+    {'file': SYNC, 'old': _NAME, 'new': "            self._name = _unescape_whatwg(params.get('name'))\n"},
+    {'file': SYNC, 'old': _FILENAME, 'new': "                self._filename = _unescape_whatwg(params.get('filename'))\n"}])
+M('c13-filename-percent-decoded', 'C13', 'R10', SYNC,
+  _FILENAME, "                self._filename = unquote_to_bytes(params.get('filename') or '').decode() or None\n")
+M('c13-name-stripped-via-local', 'C13', 'R10', SYNC,
+  _NAME, "            value = params.get('name')\n            self._name = value.strip() if value else value\n")
+M('c13-name-reads-filename-parameter', 'C13', 'R10', SYNC,
+  _NAME, "            self._name = params.get('filename')\n")
+M('c13-name-defaults-to-empty', 'C13', 'R10', SYNC,
+  _NAME, "            self._name = params.get('name', '')\n")
+M('c13-content-disposition-latin1', 'C13', 'R10', SYNC,
+  "            return parse_header(value.decode())\n", "            return parse_header(value.decode('latin-1'))\n")
+M('c13-content-disposition-params-lowercased', 'C13', 'R10', SYNC,
+  "            return parse_header(value.decode())\n",
+  "            ctype, params = parse_header(value.decode())\n            return ctype, {k: v.lower() for k, v in params.items()}\n")
+M('c13-filename-star-groups-swapped', 'C13', 'R10', SYNC,
+  "                charset, filename_raw = match.groups()\n", "                filename_raw, charset = match.groups()\n")
+M('c13-filename-star-basename-only', 'C13', 'R10', SYNC,
+  "                    self._filename = unquote_to_bytes(filename_raw).decode(charset)\n",
+  "                    self._filename = unquote_to_bytes(filename_raw).decode(charset).rpartition('/')[2]\n")
+M('c13-asgi-name-override-normalises', 'C13', 'R10', ASGI,
+  "    async def get_data(self) -> bytes:  # type: ignore[override]\n",
+  "    @property\n    def name(self):\n        value = super().name\n        return value.casefold() if value else value\n\n"
+  "    async def get_data(self) -> bytes:  # type: ignore[override]\n")
